@@ -115,6 +115,50 @@ pub fn read_journal(path: &str) -> i32 {
     0
 }
 
+/// `fjv readcuts <journal-file> <scratch-file>`: stdin lines `<m> <pad>`; for each, writes the first `m`
+/// bytes of the journal followed by `pad` zero bytes to the scratch file, runs the real reader on it and
+/// prints the `readjournal` lines followed by `--`.
+pub fn read_cuts(journal: &str, scratch: &str) -> i32 {
+    let Ok(data) = std::fs::read(journal) else {
+        eprintln!("cannot read {journal}");
+        return 2;
+    };
+    let stdin = std::io::stdin();
+    for line in stdin.lock().lines() {
+        let Ok(line) = line else { break };
+        let toks: Vec<&str> = line.split(' ').filter(|t| !t.is_empty()).collect();
+        let (m, pad, alter) = match toks.as_slice() {
+            [m, pad] => (m, pad, None),
+            [m, pad, off, val] => (m, pad, Some((off, val))),
+            _ => continue,
+        };
+        let (Ok(m), Ok(pad)) = (m.parse::<usize>(), pad.parse::<usize>()) else {
+            continue;
+        };
+        let m = m.min(data.len());
+        let mut buf = Vec::with_capacity(m + pad);
+        buf.extend_from_slice(&data[..m]);
+        buf.resize(m + pad, 0);
+        if let Some((off, val)) = alter {
+            if let (Ok(off), Ok(val)) = (off.parse::<usize>(), val.parse::<u8>()) {
+                if let Some(b) = buf.get_mut(off) {
+                    *b = val;
+                }
+            }
+        }
+        if std::fs::write(scratch, &buf).is_err() {
+            eprintln!("cannot write {scratch}");
+            return 2;
+        }
+        read_journal(scratch);
+        let stdout = std::io::stdout();
+        let mut out = stdout.lock();
+        let _ = writeln!(out, "--");
+        let _ = out.flush();
+    }
+    0
+}
+
 #[cfg(test)]
 mod tests {
     use super::*;
